@@ -191,7 +191,7 @@ pub fn exec(verb: &str, items: &[Sexp], o: &mut Oracle) -> Option<String> {
             let mut rd = Bytes::from(input);
             match sc_merge(c, wt, &c.default(), &mut rd, DecodeContext::default()) {
                 Ok(v) => {
-                    if matches!(c, Codec::FastStr | Codec::Str) { if let SV::Bs(b) = &v { if std::str::from_utf8(b).is_err() { o.fail("C10", format!("{}::merge returned a string that is not UTF-8: {}", c.name(), hex(b))); } } }
+                    if matches!(c, Codec::FastStr | Codec::Str) { if let SV::Bs(b) = &v { if std::str::from_utf8(b).is_err() { o.fail("NOTE-utf8", format!("{}::merge returned a string that is not UTF-8: {}", c.name(), hex(b))); } } }
                     format!("ok {} rem={}", v.sexp(), rd.remaining())
                 }
                 Err(e) => err_class(&e).into(),
